@@ -137,6 +137,15 @@ func c11Worker() *Result {
 			tasks = append(tasks, c11Task{[]byte(e), v[0], v[1]})
 		}
 	}
+	// values the parser itself assembles (not slices of the source): keys of negative non-integer offsets in simple
+	// interpolation, in many different spellings — shared scratch space behind them shows as a changed value
+	for i, off := range []string{"-012", "-00", "-007", "-0", "-99999999999999999999", "-0x1F", "-0b11", "-08", "-0123456789", "-000"} {
+		for _, form := range []string{"<?php echo \"$a[%s] x\";", "<?php $s = \"$b[%s]$c[%s]\"; echo <<<A\n$d[%s]\nA;\n"} {
+			v := vers[(i+len(form))%len(vers)]
+			tasks = append(tasks, c11Task{[]byte(strings.ReplaceAll(form, "%s", off)), v[0], v[1]})
+			tasks = append(tasks, c11Task{[]byte(strings.ReplaceAll(form, "%s", off)), 7, 4})
+		}
+	}
 	nerr := 120
 	if opts.Tier == "thorough" {
 		nerr = 1500
